@@ -60,7 +60,24 @@ pub fn parse_decimal(s: &str) -> Option<BigRational> {
     let mut v = if e >= 0 {
         BigRational::from_integer(mant * num::pow(ten, e as usize))
     } else {
-        BigRational::new(mant, num::pow(ten, (-e) as usize))
+        // mant / 10^k in lowest terms without a general gcd (the library gcd is quadratic for a small
+        // numerator over a 10^5-digit denominator): only the factors 2 and 5 can cancel
+        let k = (-e) as u64;
+        if mant.is_zero() {
+            BigRational::from_integer(BigInt::from(0))
+        } else {
+            let mut m = mant;
+            let twos = m.trailing_zeros().unwrap_or(0).min(k);
+            m >>= twos as usize;
+            let five = BigInt::from(5);
+            let mut fives = 0u64;
+            while fives < k && (&m % &five).is_zero() {
+                m /= &five;
+                fives += 1;
+            }
+            let den = num::pow(BigInt::from(2), (k - twos) as usize) * num::pow(five, (k - fives) as usize);
+            BigRational::new_raw(m, den)
+        }
     };
     if neg {
         v = -v;
